@@ -38,3 +38,6 @@ pub mod topics;
 pub mod users;
 pub mod utils;
 pub mod validatable;
+#[cfg(kani)]
+#[path = "/verif/model/mod.rs"]
+pub mod verif_model;
